@@ -47,6 +47,14 @@ CLAIMED["C17"] = ("contract-based verification reduced to frame conditions (dete
   "Assumes sort.Slice / slices.SortFunc are deterministic functions of their input. Region-level clauses undecided.",
   "DESIGN.md section 4, C17")
 
+CLAIMED["C16"] = ("contract-based deductive verification (WP -> SMT) of SimplifyPath64/D, getNext/getPrior and the perpendicular-distance leaf; lemmas for translation/scaling; bounded exhaustive stand-in for exit condition and termination of the cyclic scan",
+  "Proof for all inputs: getNext/getPrior return the cyclically next/previous unflagged index (full functional contract, with termination); in SimplifyPath64/D every index is in range, every getNext/getPrior precondition holds "
+  "(the current vertex is never flagged), paths shorter than 4 are returned as they are, every result vertex is an input vertex, an open path keeps both end points whenever epsilon^2 < MaxFloat64 (beyond that: known finding F28); "
+  "the Paths variants work path by path; PerpendicDistFromLineSqr64 equals cross^2/|line|^2 with no int64 overflow on the 2^29 domain (F15 repaired) and that value is invariant under translation and scales by s^2 (lemmas). "
+  "The exit condition (no retained vertex within epsilon), termination of the main loop and epsilon-0 area preservation are covered by a bounded exhaustive stand-in only.",
+  "float64 arithmetic over the reals; int->float64 exact up to 2^53 (proved applicable at each conversion). Main-loop termination and the exit condition are undecided beyond the bound.",
+  "DESIGN.md section 4, C16")
+
 NOT_APPLICABLE = {
 }
 
